@@ -705,6 +705,53 @@ func genImpGraph(r *rand.Rand) []any {
 	return g
 }
 
+// subst: one variable of a given shape substituted in one string form in one context
+var substShapes = []string{"scalar", "null", "novalue", "map", "array", "missing"}
+var substForms = []string{"unqWhole", "unqPart", "dqWhole", "dqPart", "sq", "md"}
+var substCtxs = []string{"label", "edgeLabel", "arrayElem", "tooltip"}
+
+func substText(shape, form, ctx string) string {
+	v := map[string]string{"scalar": "s", "null": "n", "novalue": "e", "map": "m", "array": "r", "missing": "zz"}[shape]
+	var val string
+	switch form {
+	case "unqWhole":
+		val = "${" + v + "}"
+	case "unqPart":
+		val = "p ${" + v + "} q"
+	case "dqWhole":
+		val = "\"${" + v + "}\""
+	case "dqPart":
+		val = "\"p ${" + v + "} q\""
+	case "sq":
+		val = "'${" + v + "}'"
+	default:
+		val = "|md t ${" + v + "} |"
+	}
+	vars := "vars: {\n  s: v\n  n: null\n  e\n  m: {style.opacity: 0.5}\n  r: [p; q]\n}\n"
+	switch ctx {
+	case "label":
+		return vars + "a: " + val + "\n"
+	case "edgeLabel":
+		return vars + "a -> b: " + val + "\n"
+	case "arrayElem":
+		return vars + "a.class: [" + val + "]\n"
+	default:
+		return vars + "a.tooltip: " + val + "\n"
+	}
+}
+
+func obsSubst(shape, form, ctx string) map[string]any {
+	r := compileRemote(substText(shape, form, ctx), nil)
+	out := map[string]any{"outcome": r.outcome, "nerr": len(r.errs)}
+	if r.site != "" {
+		out["site"] = r.site
+	}
+	if len(r.errs) > 0 {
+		out["first"] = r.errs[0]["msg"]
+	}
+	return map[string]any{"k": "subst", "in": map[string]any{"shape": shape, "form": form, "ctx": ctx}, "out": out}
+}
+
 func anys(xs []string) []any {
 	out := make([]any, len(xs))
 	for i, x := range xs {
@@ -732,6 +779,8 @@ func replay(c *hl.Ctx, cs map[string]any) {
 		c.Emit(obsTheme(in["fields"].([]any)))
 	case "imp":
 		c.Emit(obsImp(in["graph"].([]any)))
+	case "subst":
+		c.Emit(obsSubst(in["shape"].(string), in["form"].(string), in["ctx"].(string)))
 	case "edgekw":
 		c.Emit(obsEdgeKW(in["src"].([]any), in["dst"].([]any), int(in["depth"].(float64))))
 	}
@@ -755,6 +804,12 @@ var corpus = []struct {
 	{"a: @x\n", map[string]string{"x.d2": "b: @y\n", "y.d2": "c: @x\n"}},
 	{"a: @index\n", nil},
 	{"d: {shape: class; f0}\nd: {c: {_.A.B <-> b}}\n", nil},
+	{"vars: {x}\na: \"${x}\"\n", nil},
+	{"style: [{a: null}]\n", nil},
+	{"vars: {x}\na -> b: \"p ${x}\"\n", nil},
+	{"c: {a -> b}\n*.(a -> b)[0].style.stroke: red\nc.(* -> *)[*].style.opacity: 0.4\n", nil},
+	{"layers: {\nx: {\na -> b\n(* -> *)[*]: {\n&src: a\nstyle.stroke: red\n}\n}\n}\n", nil},
+	{"scenarios: {\ns: {\na -> b\n(* -> *)[*]: {\n&dst: b\n}\n}\n}\n", nil},
 	{"\"x\\ny\".shape: sql_table\n", nil},
 	{"\"\".shape: text\n", nil},
 	{"Classes: {\nd: {shape: sql_table; f0; f1: int}\nd.c: {\n_._.x -> y\n}\n}\n", nil},
@@ -886,6 +941,15 @@ func run(c *hl.Ctx) error {
 		}
 		c.Emit(obsEdgeKW(mk(), mk(), r.Intn(3)))
 		c.Count("edgekw")
+	}
+	// --- leaf: variable substitution by variable shape × string form × context (exhaustive: 6 × 6 × 4)
+	for _, sh := range substShapes {
+		for _, f := range substForms {
+			for _, cx := range substCtxs {
+				c.Emit(obsSubst(sh, f, cx))
+				c.Count("subst")
+			}
+		}
 	}
 	// --- leaf: import stack / cycle test
 	for i, n := 0, c.Pick(400, 20000); i < n; i++ {
